@@ -8,7 +8,12 @@
 (*   next        the stream of a reader that only calls Next               *)
 (*   seeks[k]    [x, s]: stream s of a reader on a fresh iterator whose    *)
 (*               first call is Seek(x), followed by Next until exhausted   *)
+(*   logs[k]     calls of a reader that mixes Next and Seek on a fresh     *)
+(*               iterator: [op, x, ok, s] per call (s = <<>> if none)      *)
+(*   in.algo     "penalty" or "chain" (deduplication function)             *)
 (*   err         "" or the error / panic that ended the observation        *)
+(* Samples are <<t, v>> (float) or <<t, v, "h" | "fh">> (histogram with    *)
+(* count v), read with the accessor of the value type Next/Seek returned.  *)
 (* Judged with the property-level operators of Dedup only.                 *)
 (***************************************************************************)
 EXTENDS TraceLib, Dedup
@@ -29,11 +34,20 @@ Judge(e) ==
     (* iterating from the start sees"                                                       *)
     (IF \A k \in DOMAIN e.seeks : SeekIsSuffix(e.next, e.seeks[k].x, e.seeks[k].s)
        THEN {} ELSE {"seek-first-is-suffix"})
+    \cup
+    (* the same for a reader that seeks in mid-stream (chunkenc.Iterator contract: Seek goes to *)
+    (* the first sample at or after t, and is a no-op if the current sample already is)         *)
+    (IF \A k \in DOMAIN e.logs : FollowsFullStream(e.next, e.logs[k])
+       THEN {} ELSE {"reader-follows-from-start-stream"})
 
 (* Model conformance (never a verdict): the algorithm-level model predicts the streams.  *)
+OpsOf(log) == [k \in DOMAIN log |-> [op |-> log[k].op, x |-> log[k].x]]
 Drift(e) == /\ e.in.drift /\ e.err = ""
-            /\ \/ e.next # RunNext(e.in.reps, e.in.ctr)
-               \/ \E k \in DOMAIN e.seeks : e.seeks[k].s # RunSeek(e.in.reps, e.in.ctr, e.seeks[k].x)
+            /\ IF e.in.algo = "chain"
+                 THEN Len(e.in.reps) > 1 /\ [k \in DOMAIN e.next |-> T(e.next[k])] # ChainTimes(e.in.reps)
+                 ELSE \/ e.next # RunNext(e.in.reps, e.in.ctr)
+                      \/ \E k \in DOMAIN e.seeks : e.seeks[k].s # RunSeek(e.in.reps, e.in.ctr, e.seeks[k].x)
+                      \/ \E k \in DOMAIN e.logs : e.logs[k] # RunOps(e.in.reps, e.in.ctr, OpsOf(e.logs[k]))
 
 VARIABLE l
 TraceInit == l = 1
